@@ -569,3 +569,61 @@ func init() {
 		"H.goatorepo.RequestHeader.Destination", "H.goatorepo.RequestHeader.Source", "H.goatorepo.RequestHeader.Method", "H.goatorepo.RequestHeader.Headers"}
 	externalWrites["fnfield:*"] = append(externalWrites["fnfield:*"], externalWrites["fnfield:H.goat.Proxy.rpcIntercepter"]...)
 }
+
+func init() {
+	ext("google.golang.org/protobuf/proto.Unmarshal", "proto.Unmarshal(b,m): any error; on success *m is the decoded message (A-codec)", func(c *ExtCtx) Val {
+		// the target message is overwritten: havoc the envelope's top-level fields
+		for _, a := range externalWrites["google.golang.org/protobuf/proto.Unmarshal"] {
+			c.st.havoc(a)
+		}
+		return c.fresh(0, "unmarshal.err")
+	})
+	externalWrites["google.golang.org/protobuf/proto.Unmarshal"] = []string{"H.goatorepo.Rpc.Id", "H.goatorepo.Rpc.Header", "H.goatorepo.Rpc.Status", "H.goatorepo.Rpc.Body", "H.goatorepo.Rpc.Trailer", "H.goatorepo.Rpc.Reset_"}
+	ext("google.golang.org/protobuf/proto.Marshal", "proto.Marshal(m): (bytes, err); err == nil ==> bytes == protoBytes(m)", func(c *ExtCtx) Val {
+		b := c.fresh(0, "marshal.bytes")
+		e := c.fresh(1, "marshal.err")
+		c.st.assume("(=> (= " + e.T + " 0) (= " + b.T + " (protoBytes " + c.args[0].T + ")))")
+		return c.tuple(b, e)
+	})
+	ext("(*github.com/coder/websocket.Conn).Read", "websocket.Conn.Read(ctx): (type, bytes, err) arbitrary", func(c *ExtCtx) Val {
+		return c.tuple(c.fresh(0, "ws.typ"), c.fresh(1, "ws.data"), c.fresh(2, "ws.err"))
+	})
+	ext("(*github.com/coder/websocket.Conn).Write", "websocket.Conn.Write(ctx,type,bytes): any error", func(c *ExtCtx) Val {
+		return c.fresh(0, "ws.werr")
+	})
+}
+
+func init() {
+	ext("net/http.NewRequest", "http.NewRequest: (req, err) with err == nil ==> req != nil && req.Header != nil", func(c *ExtCtx) Val {
+		r := c.fresh(0, "httpreq")
+		e := c.fresh(1, "httpreq.err")
+		c.st.assume("(= (= " + e.T + " 0) (distinct " + r.T + " 0))")
+		c.st.assume("(=> (distinct " + r.T + " 0) (distinct " + c.field(r, "Header").T + " 0))")
+		return c.tuple(r, e)
+	})
+	ext("(*net/http.Client).Do", "http.Client.Do: (resp, err) with err == nil ==> resp != nil && resp.Body != nil", func(c *ExtCtx) Val {
+		r := c.fresh(0, "httpresp")
+		e := c.fresh(1, "httpresp.err")
+		c.st.assume("(= (= " + e.T + " 0) (distinct " + r.T + " 0))")
+		c.st.assume("(=> (distinct " + r.T + " 0) (distinct " + c.field(r, "Body").T + " 0))")
+		return c.tuple(r, e)
+	})
+	ext("bytes.NewBuffer", "bytes.NewBuffer: non-nil buffer", func(c *ExtCtx) Val {
+		r := c.fresh(0, "buf")
+		c.st.assume("(distinct " + r.T + " 0)")
+		return r
+	})
+}
+
+func init() {
+	ext("(github.com/jonboulle/clockwork.Clock).NewTicker", "clockwork.Clock.NewTicker: a non-nil ticker", func(c *ExtCtx) Val {
+		r := c.fresh(0, "ticker")
+		c.st.assume("(distinct " + r.T + " 0)")
+		return r
+	})
+	ext("(github.com/jonboulle/clockwork.Ticker).Chan", "clockwork.Ticker.Chan: the ticker's channel (never closed by goat)", func(c *ExtCtx) Val {
+		r := c.fresh(0, "tickch")
+		c.st.assume("(distinct " + r.T + " 0)")
+		return r
+	})
+}
